@@ -501,13 +501,18 @@ impl<Aux> Vm<'_, Aux> {
                     .stack_push(Value::Nil)
                     .map_err(|err| payload_to_error(err, src_ptr, &self.runtime_data.call_stack))?,
                 Instruction::ClearStack => {
+                    // drops what lies above the first `keep` locals of the current frame
+                    let keep: u32 =
+                        unsafe { instr_execution::decode_value(&program.bytecode, instr_ptr) };
                     let offset = self
                         .runtime_data
                         .call_stack
                         .last()
                         .expect("No callframe available")
                         .stack_offset as usize;
-                    self.runtime_data.value_stack.clear_until(offset);
+                    self.runtime_data
+                        .value_stack
+                        .clear_until(offset + keep as usize);
                 }
                 Instruction::SetLocalVar => {
                     instr_execution::set_local(self, &program.bytecode, instr_ptr).map_err(
